@@ -1,4 +1,5 @@
 import FgaVerif.Proofs.SortByModule
+import FgaVerif.Proofs.CommentInert
 /-!
 # C14 — DSL output is canonical and source-info comments are inert
 
@@ -16,10 +17,25 @@ the code (shuffled JSON keys, repeated calls).  Proved here, for **all** models:
 * `types_printed_sorted`, `relations_printed_sorted` — the printed order *is* sorted by that comparator
   (resp. by name for plain models).
 
-Not proved: `strip (print true m) = print false m` (comment inertness) — a string-level statement about the
-first " #" of every line; it is checked by the oracle on the real code on every run, together with "both
-parse to the same model".  Its former excluded point (a module/file name containing a line break) was
-repaired in /repo (the comment writes a blank for it; `Printer.oneLine`).
+* `source_comments_inert` (proof in `Proofs/CommentInert.lean`) — comment inertness: for every model
+  satisfying the decidable hypothesis `cleanB`, printing with and without source information fails with the
+  same error, or both succeed and `stripComments (print true m) = print false m`, where `stripComments` is
+  the oracle's `strip` (split on line breaks; a line containing " #" is cut at its FIRST " #" and right-trimmed
+  of blanks; other lines untouched; join).  `verdict_independent_of_option` is the hypothesis-free half (same
+  error or two successes, for all models).  `cleanB` asks that no printed piece other than a module / file
+  name (schema, type / relation / condition / parameter names and types, restriction fields, computed and
+  tupleset names, condition expression) contains " #" or starts with `#`, and that the text in front of a
+  comment that is actually written (type name; the operands of a relation definition) is not empty and does
+  not end in a blank.  Blanks, `#` and even line breaks inside names are allowed; module and file names are
+  arbitrary (the printer writes a blank for their line breaks, `Printer.oneLine`; they may contain " #");
+  condition expressions may span lines.  The hypothesis is needed: `Proofs/CommentInert.lean` carries
+  evaluated counterexamples (a condition expression containing " #"; a type name that is empty or ends in a
+  blank, with source information; a name starting with `#`; a restriction `#rel` with an empty type) — for
+  those inputs the oracle's clause is false of the real printer as well, so generators must avoid them.
+  `cleanB` is slightly stronger than necessary in three places (noted at its definition).
+
+The oracle still checks the clause on the real code on every run, together with "both parse to the same
+model"; the correspondence check ties the port to the real printer for both option values.
 -/
 namespace FgaVerif.Props.C14
 open FgaVerif FgaVerif.Model FgaVerif.Model.Printer
@@ -106,5 +122,52 @@ def tB : TypeDef := { name := "a", md := some { module := "core", file := "b.fga
 def tC : TypeDef := { name := "m", md := none }
 example : (orderedTypes { types := [tA, tB, tC] }).map (·.name) = ["m", "z", "a"] := by decide
 example : (orderedTypes { types := [tB, tC, tA] }).map (·.name) = ["m", "z", "a"] := by decide
+
+/-! ## source-information comments are inert -/
+open FgaVerif.Proofs.CommentInert in
+/-- **Asking for source information only appends comments**: for a model satisfying `cleanB` (no printed
+    piece other than a module / file name contains " #" or starts with `#`; the text in front of a written
+    comment is not empty and does not end in a blank), the two runs fail with the same error, or both
+    succeed and stripping the comments from the output with source information gives the plain output. -/
+theorem source_comments_inert (m : Model) (h : cleanB m = true) :
+    (∃ e, transform m true = .error e ∧ transform m false = .error e) ∨
+    (∃ s p, transform m true = .ok s ∧ transform m false = .ok p ∧ stripComments s = p) :=
+  comments_inert m h
+
+open FgaVerif.Proofs.CommentInert in
+/-- … as a function of the successful output -/
+theorem plain_is_stripped_source (m : Model) (h : cleanB m = true) (s : String) (hs : transform m true = .ok s) :
+    transform m false = .ok (stripComments s) :=
+  plain_eq_strip m h s hs
+
+/-- whether printing succeeds, and with which error it fails, never depends on the option (all models) -/
+theorem verdict_independent_of_option (m : Model) :
+    (∃ e, transform m true = .error e ∧ transform m false = .error e) ∨
+    (∃ s p, transform m true = .ok s ∧ transform m false = .ok p) :=
+  FgaVerif.Proofs.CommentInert.same_verdict m
+
+/-! ### non-vacuity: a modular model with a type, a relation and a condition; all three kinds of comment
+    are written, so the two outputs differ, and the hypothesis holds -/
+def mSrc : Model :=
+  { schema := "1.2",
+    types := [{ name := "document",
+                relations := [("viewer", .union [.this, .computed "owner"])],
+                md := some { module := "core", file := "core.fga",
+                             relations := [("viewer", { restr := [⟨"user", "", false, ""⟩, ⟨"group", "member", false, "in_office"⟩],
+                                                        module := "sharing", file := "a b.fga" })] } }],
+    conds := [("in_office", { name := "in_office", expr := "ip.in_cidr(\"10.0.0.0/8\") &&\n  hour < 18",
+                              params := [("ip", { typeName := "ipaddress" }), ("hour", { typeName := "int" })],
+                              md := some { module := "core", file := "conds\n.fga" } })] }
+
+example : FgaVerif.Proofs.CommentInert.cleanB mSrc = true := by decide +kernel
+example : (transform mSrc true).toOption = some
+    "model\n  schema 1.2\n\ntype document # module: core, file: core.fga\n  relations\n    define viewer: [user, group#member with in_office] or owner # extended by: module: sharing, file: a b.fga\n\ncondition in_office(hour: int, ip: ipaddress) {\n  ip.in_cidr(\"10.0.0.0/8\") &&\n  hour < 18\n} # module: core, file: conds .fga\n" := by
+  decide +kernel
+example : (transform mSrc false).toOption = some
+    "model\n  schema 1.2\n\ntype document\n  relations\n    define viewer: [user, group#member with in_office] or owner\n\ncondition in_office(hour: int, ip: ipaddress) {\n  ip.in_cidr(\"10.0.0.0/8\") &&\n  hour < 18\n}\n" := by
+  decide +kernel
+example : (transform mSrc true).toOption ≠ (transform mSrc false).toOption := by decide +kernel
+example : transform mSrc true ≠ transform mSrc false := fun h =>
+  absurd (congrArg Except.toOption h) (by decide +kernel)
 
 end FgaVerif.Props.C14
